@@ -18,9 +18,13 @@ ROOT = os.path.dirname(os.path.dirname(os.path.abspath(__file__)))
 sys.path.insert(0, ROOT)
 sys.path.insert(0, os.environ.get("VERIF_REPO", "/repo"))
 
-from harness import pipeline as P          # noqa: E402
-from harness import families as F         # noqa: E402
-from harness import kernels               # noqa: E402
+try:
+    from harness import pipeline as P          # noqa: E402
+    from harness import families as F         # noqa: E402
+    from harness import kernels               # noqa: E402
+except Exception:                             # a broken harness is a machinery failure, never a verdict
+    traceback.print_exc()
+    sys.exit(2)
 
 
 def load_known():
